@@ -65,6 +65,9 @@ class Engine(ExprMixin, BuiltinMixin):
         self.current_props = []
         self.stats = {"paths_pruned": 0, "feasibility_checks": 0}
         self.poll = None
+        self.oid_prefix = ""
+        self.case_suffix = ""
+        self.global_overrides = {}
 
     # ------------------------------------------------------------------ obligations
     def oblige(self, oid, st, goal, props=None, kind="post", func=None, line=None,
@@ -526,6 +529,10 @@ class Engine(ExprMixin, BuiltinMixin):
         item = s.items[0]
         return self.exec_with(s, item, st, fx)
 
+    def exec_with(self, s, item, st, fx):
+        from .ctxmgr import exec_with
+        return exec_with(self, s, item, st, fx)
+
     # ---- loops
     def st_For(self, s, st, fx):
         from .loops import exec_for
@@ -545,14 +552,6 @@ class ModFrame:
         self.qualname = module.modname + ":<module>"
         self.loops, self.rets, self.raises = {}, {}, {}
         self.finfo = None
-
-
-class KwargsV(V):
-    """The **kwargs dict of a frame: statically known names."""
-    kind = "kwargs"
-
-    def __init__(self, items):
-        self.items = dict(items)
 
 
 def _as_load(t):
